@@ -13,6 +13,9 @@ use vref::framing;
 
 #[derive(Clone, Copy, Debug, Serialize, PartialEq)]
 pub enum Layer {
+    /// tpkt::Client::write of a structured message (records with size-dependent / skippable fields): `len` indexes
+    /// c18::structured_messages()
+    TpktStructured,
     Tpkt,
     X224,
     Link,
@@ -27,6 +30,8 @@ pub enum WP {
     Seq(Vec<usize>),
     ErrAt(usize, usize),
     Interrupted(usize),
+    /// one transient error at this position (0 WouldBlock, 1 TimedOut, 2 ConnectionReset, 3 Other), then the stream accepts again
+    ErrOnce(usize, u8),
 }
 
 #[derive(Clone, Debug, Serialize)]
@@ -56,7 +61,7 @@ fn payload(n: usize) -> Vec<u8> {
 
 fn max_len(l: Layer) -> usize {
     match l {
-        Layer::Tpkt => 65531,
+        Layer::Tpkt | Layer::TpktStructured => 65531,
         Layer::X224 => 65528,
         Layer::Link | Layer::Conversation => usize::MAX,
     }
@@ -64,7 +69,7 @@ fn max_len(l: Layer) -> usize {
 
 fn reference(l: Layer, p: &[u8]) -> Vec<u8> {
     match l {
-        Layer::Tpkt => framing::tpkt(p),
+        Layer::Tpkt | Layer::TpktStructured => framing::tpkt(p),
         Layer::X224 => framing::tpkt(&framing::x224_dt(p)),
         Layer::Link | Layer::Conversation => p.to_vec(),
     }
@@ -154,6 +159,20 @@ impl Prop for C14 {
                 }
             }
         }
+        // E2: one transient error (would-block, timed-out, reset, other) at every byte position, the stream accepts afterwards:
+        // the call may fail (having delivered a prefix) or succeed (having delivered exactly the frame), nothing else
+        for layer in [Layer::Tpkt, Layer::Link, Layer::X224] {
+            for len in [0usize, 1, 7, 20, 300] {
+                let total = reference(layer, &payload(len)).len();
+                let positions: Vec<usize> = if total <= 40 { (0..total).collect() } else { vec![0, 1, 3, 4, 5, 7, total / 2, total - 1] };
+                for pos in positions {
+                    for kind in 0..4u8 {
+                        cs.push(Case { layer, len, plan: WP::ErrOnce(pos, kind), then: vec![] });
+                        cs.push(Case { layer, len, plan: WP::ErrOnce(pos, kind), then: vec![(5, WP::All)] });
+                    }
+                }
+            }
+        }
         // F: EINTR once
         for layer in [Layer::Tpkt, Layer::Link, Layer::X224] {
             for len in [0usize, 1, 100] {
@@ -169,6 +188,11 @@ impl Prop for C14 {
             }
             cs.push(Case { layer: Layer::Conversation, len: nla, plan: WP::Seq(vec![1, 2, 3, 1, 1, 5, 7, 1, 2]), then: vec![] });
             cs.push(Case { layer: Layer::Conversation, len: nla, plan: WP::Interrupted(3), then: vec![] });
+        }
+        // A2: structured messages (not only byte blocks): the frame header must announce what is really emitted
+        for i in 0..crate::props::c18::structured_messages().len() {
+            cs.push(Case { layer: Layer::TpktStructured, len: i, plan: WP::All, then: vec![] });
+            cs.push(Case { layer: Layer::TpktStructured, len: i, plan: WP::Cap(1), then: vec![] });
         }
         // H: sequences of messages on the same layer object: whatever happened to a message (error before the
         // first byte, in mid-frame, short writes, zero-length write, EINTR), the next one is exact again
@@ -211,7 +235,7 @@ impl Prop for C14 {
         json!({"idx": idx, "case": self.cases[idx as usize]})
     }
     fn rule(&self) -> String {
-        "cases = (layer in {tpkt, x224, link}, payload length, write behaviour of the stream); lengths 0..70000 all enumerated on an accepting stream; short-write caps {1,2,3,4,5,7,8,1024} for every length <= 300 and every 16-bit boundary length; every composition of write sizes for frames <= 12 bytes; zero-length writes; an error injected at every byte position for lengths <= 64 and boundary lengths; EINTR once; sequences of 2 (3 in thorough) messages on the same layer object, the first one meeting an error before its first byte / after one byte / in mid-frame / on its last byte, one-byte writes, a zero-length write or EINTR, the later ones judged like a first message; plus 18 full real conversations over TLS (NLA on/off) with a transport accepting k bytes per write, k in {1,2,3,5,7,16,1024}, an irregular size sequence, and EINTR. Non-trivial: the stream deviates from accepting everything, or the length is within 8 of a 7/14/15/16-bit boundary or above the frame limit.".into()
+        "cases = (layer in {tpkt, x224, link}, payload length, write behaviour of the stream); lengths 0..70000 all enumerated on an accepting stream; structured messages (every one-field and several three-field shapes of the C18 message model: size-dependent, skippable, optional, nested fields) framed by tpkt::Client::write; short-write caps {1,2,3,4,5,7,8,1024} for every length <= 300 and every 16-bit boundary length; every composition of write sizes for frames <= 12 bytes; zero-length writes; an error injected at every byte position for lengths <= 64 and boundary lengths; EINTR once; one transient error (WouldBlock / TimedOut / ConnectionReset / Other) at every byte position after which the stream accepts again; sequences of 2 (3 in thorough) messages on the same layer object, the first one meeting an error before its first byte / after one byte / in mid-frame / on its last byte, one-byte writes, a zero-length write or EINTR, the later ones judged like a first message; plus 18 full real conversations over TLS (NLA on/off) with a transport accepting k bytes per write, k in {1,2,3,5,7,16,1024}, an irregular size sequence, and EINTR. Non-trivial: the stream deviates from accepting everything, or the length is within 8 of a 7/14/15/16-bit boundary or above the frame limit.".into()
     }
     fn assumptions(&self) -> Vec<String> {
         vec![
@@ -246,6 +270,23 @@ impl Prop for C14 {
                 },
             };
         }
+        if c.layer == Layer::TpktStructured {
+            let (desc, msg, bytes) = crate::props::c18::structured_messages().swap_remove(c.len);
+            let link = MemLink::scripted(&[]);
+            let sh = link.sh.clone();
+            sh.borrow_mut().write_plan = match &c.plan {
+                WP::Cap(k) => WritePlan::Cap(*k),
+                _ => WritePlan::All,
+            };
+            let r = tpkt::Client::new(Link::new(Stream::Raw(link))).write(msg);
+            let delivered = sh.borrow().from_client.clone();
+            let want = framing::tpkt(&bytes);
+            return match r {
+                Ok(()) if delivered == want => Outcome::pass("structured-ok", true),
+                Ok(()) => Outcome::fail("mismatch", "structured-message-frame-differs", format!("{}: header says {} bytes, {} bytes emitted, reference frame {} bytes", desc, if delivered.len() >= 4 { u16::from_be_bytes([delivered[2], delivered[3]]) as usize } else { 0 }, delivered.len(), want.len())),
+                Err(e) => Outcome::fail("mismatch", "spurious-error", format!("{}: {:?}", desc, e)),
+            };
+        }
         let link = MemLink::scripted(&[]);
         let sh = link.sh.clone();
         enum Obj {
@@ -258,7 +299,7 @@ impl Prop for C14 {
             Layer::Link => Obj::L(l),
             Layer::Tpkt => Obj::T(tpkt::Client::new(l)),
             Layer::X224 => Obj::X(x224::Client::verif_new_raw(tpkt::Client::new(l), x224::Protocols::ProtocolSSL)),
-            Layer::Conversation => unreachable!(),
+            Layer::Conversation | Layer::TpktStructured => unreachable!(),
         };
         let mut msgs = vec![(c.len, c.plan.clone())];
         msgs.extend(c.then.iter().cloned());
@@ -277,6 +318,7 @@ impl Prop for C14 {
                     WP::Seq(v) => WritePlan::Seq(v.clone()),
                     WP::ErrAt(pos, cap) => WritePlan::ErrAt { pos: start + *pos, cap: *cap },
                     WP::Interrupted(k) => WritePlan::InterruptedAt(*k),
+                    WP::ErrOnce(pos, kind) => WritePlan::ErrOnceAt { pos: start + *pos, kind: [std::io::ErrorKind::WouldBlock, std::io::ErrorKind::TimedOut, std::io::ErrorKind::ConnectionReset, std::io::ErrorKind::Other][*kind as usize % 4] },
                 };
             }
             let res = match &mut obj {
